@@ -185,6 +185,17 @@ def venv_layout_counts(ctx, vh, i):
     q = vh.call(op="queries", db=db)
     vh.call(op="drop_db", db=db)
     refs = {tuple(r["def"]): len(r["refs"]) for r in q["refs"]}
+    # one record per definition in the text: a file walked twice must not be indexed twice
+    for name, defs in raw["definitions"].items():
+        keys = [(d["file"], d["line"]) for d in defs]
+        ctx.judged()
+        if len(keys) != len(set(keys)):
+            ctx.violation({"kind": "definition-indexed-twice", "fixture": name}, {"records": keys}, files=files)
+    rcu, outu, erru = run_cli(srv_bin(), ["fixtures", "unused", root])
+    ents = parse_unused_text(outu)
+    ctx.judged()
+    if len(ents) != len(set(ents)):
+        ctx.violation({"kind": "unused-entry-listed-twice", "entries": sorted({e_ for e_ in ents if ents.count(e_) > 1})[:3]}, {"out": outu[-500:]}, files=files)
     by_name = {}
     for name, defs in raw["definitions"].items():
         if len(defs) == 1:
